@@ -299,7 +299,7 @@ func c16ListingErrors(c *Ctx) {
 		{"S3Store.Prune", func(o string) bool { return o == "field:ObjectInfo.Err" }},
 		{"SFTPStore.Prune", func(o string) bool { return strings.Contains(o, "Walker).Err#0") }},
 		{"GCStore.Prune", func(o string) bool { return strings.Contains(o, "ObjectIterator).Next#1") }},
-		{"LocalStore.Prune", nil},  // nil: the error parameter of the filepath.Walk callback, whatever its name
+		{"LocalStore.Prune", nil}, // nil: the error parameter of the filepath.Walk callback, whatever its name
 		{"LocalStore.Verify", nil},
 	}
 	for _, sp := range specs {
